@@ -208,6 +208,28 @@ func (c *Config) Validate() error {
 	if err := c.validateLogging(); err != nil {
 		return err
 	}
+	if err := c.validateDistinctPorts(); err != nil {
+		return err
+	}
+	return nil
+}
+
+// validateDistinctPorts makes sure every enabled listener has a port of its own. The
+// metrics and admin servers only log a bind error, so a shared port would leave Helios
+// running without one of its listeners.
+func (c *Config) validateDistinctPorts() error {
+	ports := map[int]string{c.Server.Port: "server"}
+	if c.Metrics.Enabled {
+		if other, taken := ports[c.Metrics.Port]; taken {
+			return fmt.Errorf("metrics port %d is already used by the %s listener", c.Metrics.Port, other)
+		}
+		ports[c.Metrics.Port] = "metrics"
+	}
+	if c.AdminAPI.Enabled {
+		if other, taken := ports[c.AdminAPI.Port]; taken {
+			return fmt.Errorf("admin API port %d is already used by the %s listener", c.AdminAPI.Port, other)
+		}
+	}
 	return nil
 }
 
